@@ -655,6 +655,15 @@ def rule_bin(run):
     run.trust('struct format shapes are compared textually after unrolling literal loops and `for i in range(k)` generators')
 
 
+def rule_nonetest(run):
+    run.rule('NONETEST', 'real-valued fields read from a record are tested for absence with `is None`, never by truthiness', floor=3)
+    from .io_common import nonetest_rule
+    prog = run.prog
+    tab, xtab = tables(prog)
+    for name, fi in sorted(prog.cls('t2data', 't2data').methods.items()):
+        if name.startswith('read_'): nonetest_rule(run, fi, [tab])
+
+
 def check(run):
     run.guarded('DISP', rule_disp_kw_recseq_term)
     run.guarded('ENDKW', rule_endkw)
@@ -665,3 +674,4 @@ def check(run):
     run.guarded('PRESENT', rule_present)
     run.guarded('NOLOSS', rule_noloss)
     run.guarded('BIN', rule_bin)
+    run.guarded('NONETEST', rule_nonetest)
